@@ -164,7 +164,7 @@ REG.add(Contract(f"{LA}.layer_mapping", module=M_LA, kind="property", status="bo
                  note="LayerMapping(self._modules_by_layer_name): construction and lookup are covered by the bounded C05 / C14 stand-ins"))
 REG.add(Contract("partial", status="assumed", params=dict(func="Opaque[Class]", layer_mapping="Opaque[LayerMapping]"), returns="Opaque[Class]",
                  note="functools.partial(matcher class, layer_mapping=...): the matcher class the inner Rule instantiates"))
-REG.add(Contract("Rule._add_modules", module="pytestarch.query_language.rule", kind="method", status="bounded",
+REG.add(Contract("Rule._add_modules", module="pytestarch.query_language.rule", kind="method",
                  params=dict(self="Rule", modules="Bag[Tuple[Node,Bool]]"), returns="Rule", modifies=["self"],
                  ensures=["result == self", "self._rule_matcher_class == old(self)._rule_matcher_class",
                           "self._modules_to_check_to_be_specified_next == old(self)._modules_to_check_to_be_specified_next",
@@ -179,7 +179,19 @@ REG.add(Contract("Rule._add_modules", module="pytestarch.query_language.rule", k
                           "self._configuration.modules_to_check == old(self)._configuration.modules_to_check)"]
                  + [f"self._configuration.{f} == old(self)._configuration.{f}" for f in _cfg_fields() if f not in ("modules_to_check", "modules_to_check_against")],
                  requires=["not is_none(self._modules_to_check_to_be_specified_next)"],
-                 note="builds a list of closures (late binding was defect F05b): not under contract; covered by the bounded C05 stand-in (mixed name / regex layers)"))
+                 # the two parallel lists: position i holds the i-th processed module's name and a closure that captured ITS regex flag as a default argument
+                 locals=dict(module_names="ASeq[Node]", module_creation_fn="ASeq[Lam[Bool]]"),
+                 loops={0: dict(sig="for (module, name_is_regex) in modules", invariant=[
+                     "len(module_names) == len(module_creation_fn)", "0 <= len(module_names)",
+                     "forall(Int, lambda i: implies(0 <= i and i < len(module_names), (module_names[i], lam_cap0(module_creation_fn[i])) in seen))",
+                     "forall(Node, Bool, lambda n, r: implies((n, r) in seen, exists(Int, lambda i: 0 <= i and i < len(module_names) and module_names[i] == n and lam_cap0(module_creation_fn[i]) == r)))"])},
+                 properties=["C05", "C16", "C11", "C13"],
+                 note="list of closures (late binding was defect F05b): each closure is a Lam[Bool] value carrying its captured default; free variables of the lambda body are read "
+                      "from the defining frame at application time, so a late-binding rewrite is REFUTED, not refused. Rule._append_modules is inlined (it applies the closures)."))
+REG.add(Contract("Rule._append_modules", module="pytestarch.query_language.rule", kind="method", inline=True,
+                 params=dict(self="Rule", module_names="ASeq[Node]", create_module_fns="ASeq[Lam[Bool]]"), locals=dict(modules="Bag[Filter]"),
+                 properties=["C05", "C16"]))
+
 REG.add(Contract(f"{LR}._listify", module=M_LA, kind="classmethod", params=dict(layers="Str"), returns="Bag[Str]",
                  ensures=["forall(Str, lambda l: (l in result) == (l == layers))"], properties=["C16"]))
 REG.contracts[f"{LR}._listify"].alt = REG.add(Contract(f"{LR}._listify@list", module=M_LA, qualname=f"{LR}._listify", kind="classmethod", params=dict(layers="Bag[Str]"), returns="Bag[Str]",
